@@ -771,7 +771,15 @@ func runSnapDone(c *Ctx, r *RuleRun) {
 		if g == nil {
 			continue
 		}
-		okCaller := g == a.discard || g == a.newCommitTs || g == a.commit
+		okCaller := g == a.discard || g == a.newCommitTs
+		if g == a.commit {
+			// in Commit itself only once validation has run: after the call that allocates the commit timestamp
+			for _, al := range callsTo(p, a.commit, a.newCommitTs) {
+				if si, ok := site.(ssa.Instruction); ok && dominatesInstr(al, si) {
+					okCaller = true
+				}
+			}
+		}
 		r.Check(okCaller, p.FnName(g), "read mark released only at the end of the transaction", p.Pos(instrPos(site)), "called when the transaction is discarded or commits",
 			"the read mark of a transaction is released while the transaction can still read (not from Discard or the commit path): version garbage collection no longer keeps the versions its snapshot needs, and conflict records it depends on are cleaned up")
 	}
